@@ -171,7 +171,7 @@ func sortedKeys(m map[string]bool) []string {
 // ---- vending ---------------------------------------------------------------------------------------------------------
 
 var volumeUnits = []traits.Consumable_Unit{traits.Consumable_LITER, traits.Consumable_CUBIC_METER, traits.Consumable_CUP}
-var otherUnits = []traits.Consumable_Unit{traits.Consumable_METER, traits.Consumable_KILOGRAM, traits.Consumable_NO_UNIT}
+var otherUnits = []traits.Consumable_Unit{traits.Consumable_METER, traits.Consumable_KILOGRAM, traits.Consumable_NO_UNIT, traits.Consumable_UNIT_UNSPECIFIED, traits.Consumable_UNIT_UNSPECIFIED}
 
 func drawUnit(t *rapid.T, label string) traits.Consumable_Unit {
 	if rapid.IntRange(0, 4).Draw(t, label+".other") == 0 {
@@ -726,11 +726,34 @@ func TestPublicationVersions(t *testing.T) {
 		}
 		cur = gen()
 		c0 := clk.peek()
+		if rapid.IntRange(0, 3).Draw(t, "restored") == 1 {
+			// a model restored from stored records that carry no version (or written through the model API, which mints
+			// none): the first update through the server publishes the content - even if it is the content already there -
+			// and its version is the one any server gives that content
+			m = publicationpb.NewModel(resource.WithClock(clk), publicationpb.WithInitialPublication(mk(cur)))
+			srv = publicationpb.NewModelServer(m)
+			ref, err := publicationpb.NewModelServer(publicationpb.NewModel()).CreatePublication(ctx, &traits.CreatePublicationRequest{Name: "n", Publication: mk(cur)})
+			if err != nil {
+				t.Fatalf("reference CreatePublication: %v", err)
+			}
+			res, err := srv.UpdatePublication(ctx, &traits.UpdatePublicationRequest{Name: "n", Publication: mk(cur)})
+			if err != nil {
+				t.Fatalf("first UpdatePublication of a restored publication (no version precondition): %v", err)
+			}
+			if res.Version == "" || res.Version != ref.Version {
+				t.Fatalf("a restored publication (stored without a version) rewritten through the server has version %q, a server gives this content version %q", res.Version, ref.Version)
+			}
+			hist = append(hist, "restored+republished")
+			lib.Ev.Class("publication restored from a record without a version")
+		}
 		p, err := srv.CreatePublication(ctx, &traits.CreatePublicationRequest{Name: "n", Publication: mk(cur)})
+		if status.Code(err) == codes.AlreadyExists {
+			p, err = srv.UpdatePublication(ctx, &traits.UpdatePublicationRequest{Name: "n", Publication: mk(cur)})
+		}
 		if err != nil {
 			t.Fatalf("CreatePublication: %v", err)
 		}
-		if p.Version == "" || p.PublishTime == nil || tickOf(p.PublishTime.AsTime()) <= c0 {
+		if p.Version == "" || p.PublishTime == nil || (len(hist) == 0 && tickOf(p.PublishTime.AsTime()) <= c0) {
 			t.Fatalf("created publication lacks version/publish time: %v", p)
 		}
 		versionOf[cur] = p.Version
